@@ -1065,6 +1065,18 @@ class World:
             cause.status = STATUS_FOR.get("T")
             self._rec_op(("op", n, "x:" + rest, t0, t1, self.reg(exc)))
             _raise_from(exc, cause)
+        if kind == "xqn":
+            # an ordinary failure raised `from` a nested policy's RetryExhaustedError
+            exc = OpError(f"op{n}:{rest}")
+            exc.spec = (rest, None)
+            code = STATUS_FOR.get(rest)
+            if code is not None:
+                exc.status = code
+            cause = RetryExhaustedError(
+                stop_reason=redress.errors.StopReason.MAX_ATTEMPTS_GLOBAL, attempts=3,
+                last_class=ErrorClass.SERVER_ERROR, last_exception=None, last_result=None)
+            self._rec_op(("op", n, "x:" + rest, t0, t1, self.reg(exc)))
+            _raise_from(exc, cause)
         if kind == "xcf":
             exc = OpFuturesCancelled(f"op{n}:{rest}")
             exc.spec = (rest, None)
@@ -1133,6 +1145,17 @@ class World:
             exc = asyncio.CancelledError()
         elif label == "genexit":
             exc = GeneratorExit()
+        elif label == "nested+exc":
+            # a nested policy that was deferred after an exception: its RetryExhaustedError
+            # carries that exception - the attempt's exception is the RetryExhaustedError itself
+            inner = OpError(f"inner{n}")
+            inner.spec = ("T", None)
+            exc = RetryExhaustedError(
+                stop_reason=redress.errors.StopReason.SCHEDULED, attempts=2,
+                last_class=ErrorClass.TRANSIENT, last_exception=inner, last_result=None,
+                next_sleep_s=1.5)
+            self._rec_op(("op", n, "nested", t0, t1, self.reg(exc)))
+            _raise_here(exc)
         elif label == "nested":
             exc = RetryExhaustedError(
                 stop_reason=redress.errors.StopReason.MAX_ATTEMPTS_GLOBAL, attempts=7,
@@ -1314,6 +1337,16 @@ class World:
                     def __call__(self):
                         return world.abort_if()
                 kw["abort_if"] = StopToken()
+            elif cfg["abort_kind"] == "optarg":
+                world = self
+
+                def cutoff_passed(now=None):
+                    # a legal zero-argument predicate with an optional parameter of its own
+                    if now is not None:
+                        world.trace.append(("abort_arg", repr(now)))
+                        return False      # asked about some other instant: not what was meant
+                    return world.abort_if()
+                kw["abort_if"] = cutoff_passed
             elif cfg["abort_kind"] == "eventlike":
                 world = self
 
